@@ -599,6 +599,34 @@ func genUDP(rn *runner, r *vc.Rand, thorough bool) {
 			}
 		}
 	}
+	// (5d) the REAL asynchronous local socket (mapping.UDPVirtualConn): Write only queues, a send loop delivers later.
+	// Reads that end inside the next record (so the window is compacted over bytes just handed to Write) x sends
+	// delayed past the following reads: every split position, every interleaving of t and s for short streams
+	vsets := [][]string{{"41", "4243"}, {"414141", "42", "434343"}}
+	if thorough {
+		vsets = append(vsets, []string{"41", "z300x7", "4243", "z260x9"})
+	}
+	for _, tds := range vsets {
+		total := encLen(tds)
+		step := 1
+		if total > 40 {
+			step = 37
+		}
+		for p := 1; p < total; p += step {
+			for _, sizes := range [][]int{{p}, {p, 1}} {
+				nt := len(sizes) + 2
+				all := interleavings('t', 's', nt, len(tds))
+				for _, sc := range sample(r, all, map[bool]int{false: 8, true: 40}[thorough]) {
+					line := udpLine("hold", nil, []string{"eof", "err"}[p%2], false, tds, uncut, "-", sizes, sc)
+					rn.add("udpv"+strings.TrimPrefix(line, "udp"), "udpv:async-socket")
+				}
+			}
+		}
+		for cut := 0; cut <= total && total <= 40; cut++ {
+			line := udpLine("hold", nil, "eof", false, tds, cut, "-", []int{3, 2, 4}, "ttstts")
+			rn.add("udpv"+strings.TrimPrefix(line, "udp"), "udpv:async-socket")
+		}
+	}
 	// (6) random mix
 	rounds = 300
 	if thorough {
